@@ -646,8 +646,10 @@ func runWorld(data json.RawMessage) vh.Verdict {
 			} else {
 				var got obs.Observation
 				if deadline("observe-imported", i, func() { got = obs.Observe(fresh, c.IDs, opts) }) {
-					if obs.Canon(got) != obs.Canon(before) {
-						cm.add(i, "roundtrip", "differs:"+firstDiff(before, got), fmt.Sprintf("imported world differs from the edited one: edited %s imported %s", obs.Canon(before), obs.Canon(got)))
+					// modulo the points whose membership of the "all" token is unspecified (World!AllUnspecified)
+					a, b := stripAllUn(before, s.Obs.AllUn), stripAllUn(got, s.Obs.AllUn)
+					if obs.Canon(a) != obs.Canon(b) {
+						cm.add(i, "roundtrip", "differs:"+firstDiff(a, b), fmt.Sprintf("imported world differs from the edited one: edited %s imported %s", obs.Canon(a), obs.Canon(b)))
 					}
 					cm.compareObs(i, "rt-spec:", expState{Eff: s.Eff, Obs: s.Obs}, got)
 				}
@@ -728,6 +730,20 @@ func errClass(err error) string {
 	return parts[0] + ":" + strings.Join(keep, "-")
 }
 
+// stripAllUn removes the names whose indexing under the "all" token is unspecified from every all* search result.
+func stripAllUn(o obs.Observation, allun []string) obs.Observation {
+	out := o
+	out.Search = map[string][]string{}
+	for q, l := range o.Search {
+		if strings.HasPrefix(q, "all") {
+			out.Search[q] = obs.Without(l, allun)
+		} else {
+			out.Search[q] = l
+		}
+	}
+	return out
+}
+
 func firstDiff(a, b obs.Observation) string {
 	for _, n := range vh.SortedKeys(a.Features) {
 		if d := diffFeature(n, a.Features[n], b.Features[n]); d != "" {
@@ -760,5 +776,6 @@ func main() {
 	vh.RegisterFunc("mworld", runWorld)
 	vh.RegisterFunc("sworld", runStatic)
 	vh.Tool("trybuild", tryBuild)
+	vh.RegisterFunc("osm", runOSM)
 	vh.Main()
 }
